@@ -437,6 +437,9 @@ func genC01(seed uint64, tier Tier) *Case {
 			c.Steps = append(c.Steps, Step{Kind: "sleep", Ms: int64(g.r.Range(100, 3000))})
 			g.nowMs += 1000
 		}
+		if g.r.Bool(0.15) {
+			c.Steps = append(c.Steps, Step{Kind: "start_cancelled", Ms: int64(g.r.Range(1, 12))})
+		}
 		c.Steps = append(c.Steps, Step{Kind: "start"}, Step{Kind: "validate", Label: fmt.Sprintf("round%d", round)})
 		g.nowMs += 2000
 	}
